@@ -195,15 +195,26 @@ def _run(ctx):
     loop = [n for n in own_nodes(sc.node) if isinstance(n, ast.For) and
             'input_dict.items()' in norm(n.iter)]
     ok = False
+    scfg = ctx.cfg(sc)
     for lp in loop:
-        for i in ast.walk(lp):
-            if isinstance(i, ast.If) and \
-                    'not in wf_spec.get_input()' in norm(i.test):
-                has_set = any(isinstance(s, ast.Assign) and
-                              norm(s.targets[0]) == 'wf_params[k]' and
-                              norm(s.value) == 'v' for s in i.body)
-                has_del = any(isinstance(s, ast.Delete) for s in i.body)
-                ok = has_set and has_del
+        if not (isinstance(lp.target, ast.Tuple) and
+                len(lp.target.elts) == 2 and
+                all(isinstance(e, ast.Name) for e in lp.target.elts)):
+            continue
+        kk, vv = lp.target.elts[0].id, lp.target.elts[1].id
+        sets = [s_ for s_ in ast.walk(lp) if isinstance(s_, ast.Assign) and
+                norm(s_.targets[0]) == 'wf_params[%s]' % kk and
+                norm(s_.value) == vv]
+        dels = [s_ for s_ in ast.walk(lp) if isinstance(s_, ast.Delete) and
+                [norm(t) for t in s_.targets] == ['input_dict[%s]' % kk]]
+        if len(sets) == 1 and len(dels) == 1:
+            # moved exactly when the child does not declare the key
+            ok = all(
+                U.guarded(scfg, scfg.stmt_node(x),
+                          '%s in wf_spec.get_input()' % kk, False) and
+                U.only_guards(scfg, scfg.stmt_node(x), [
+                    ('%s in wf_spec.get_input()' % kk, False)])
+                for x in sets + dels)
     r3.check(ok, ctx.construct(sc, extra='undeclared input -> params'),
              'input keys not declared by the child are not moved into the '
              'execution parameters (dropped or left in the input)',
